@@ -25,12 +25,17 @@ Step(s, e) ==
   CASE e.ev = "chunk" ->
          IF e.panic # "" THEN [st |-> s, bad |-> V("C08", "pump panicked: " \o e.panic)]
          ELSE IF e.err # "" THEN [st |-> s, bad |-> V("C08", "pump failed although the reader only did short reads / EINTR: " \o e.err)]
-         ELSE [st |-> [s EXCEPT !.cs = Append(@, [k |-> e.k, off |-> e.off, data |-> e.data])], bad |-> {}]
+         ELSE [st |-> [s EXCEPT !.cs = Append(@, [k |-> e.k, off |-> e.off, data |-> e.data])],
+               \* the chunker hands bytes through verbatim: a Data chunk that ends at a position of the stream but holds other
+               \* bytes than the stream has there was (re-)read from memory that was not the chunker's any more
+               bad |-> When(e.k = "D" /\ e.off <= Len(s.s) /\ Len(e.data) <= e.off
+                            /\ e.data # SubSeq(s.s, e.off - Len(e.data) + 1, e.off),
+                            V("C05", "the bytes of a Data chunk are not the bytes of the stream at its position (memory reused or released under the StreamChunker)"))]
     [] e.ev = "recheck" ->      \* after the arena moved on: every Data chunk handed out is still alive and unchanged
          LET ds == SelectSeq(s.cs, LAMBDA c : c.k = "D") IN
          [st |-> s,
           bad |-> When(e.dangling > 0, V("C05", "a Data chunk handed out by the StreamChunker no longer lies in live arena memory"))
-             \cup When(e.dangling = 0 /\ e.chunks # [i \in 1..Len(ds) |-> ds[i].data],
+             \cup When(e.dangling = 0 /\ e.kept = 1 /\ e.chunks # [i \in 1..Len(ds) |-> ds[i].data],
                        V("C05", "the bytes of a Data chunk changed after it was handed out"))]
     [] e.ev = "record" ->
          [st |-> [s EXCEPT !.recs = Append(@, [data |-> e.data, a |-> e.a, b |-> e.b]), !.lso = e.lso],
